@@ -124,8 +124,32 @@ type c18EmbedCollisionOuterFirst struct {
 	c18Base
 }
 
+// defined (named) types over the basic kinds: encoding/json goes by the KIND of a type (a slice whose elements have kind uint8
+// is written as base64 text, whatever the element type is called)
+type c18Level uint8
+type c18Hash []byte
+type c18Name string
+type c18Count int32
+type c18Ratio float64
+type c18Flag bool
+type c18Levels []c18Level
+type c18Dict map[string]c18Count
+type c18Named struct {
+	L  []c18Level         `json:"l"`
+	LL c18Levels          `json:"ll"`
+	H  c18Hash            `json:"h"`
+	N  c18Name            `json:"n"`
+	C  *c18Count          `json:"c"`
+	R  []c18Ratio         `json:"r"`
+	F  map[string]c18Flag `json:"f"`
+	D  c18Dict            `json:"d"`
+	M  map[string]c18Hash `json:"m"`
+}
+
 func c18StaticTypes() []reflect.Type {
 	return []reflect.Type{
+		reflect.TypeOf(c18Named{}), reflect.TypeOf([]c18Level{}), reflect.TypeOf(c18Levels{}), reflect.TypeOf(c18Hash{}), reflect.TypeOf([]c18Hash{}), reflect.TypeOf(map[string][]c18Level{}),
+		reflect.TypeOf(c18Dict{}), reflect.TypeOf([]c18Name{}), reflect.TypeOf([]*c18Level{}),
 		reflect.TypeOf(c18GTree[int]{}), reflect.TypeOf(c18GTree[string]{}), reflect.TypeOf(c18GPair[string, uint8]{}), reflect.TypeOf(c18GBox[c18Leaf]{}), reflect.TypeOf([]c18GTree[float64]{}),
 		reflect.TypeOf(c18GBox[c18GTree[int]]{}), reflect.TypeOf(c18EmbedCollisionOuterFirst{}), reflect.TypeOf(c18StringTag{}), reflect.TypeOf([]c18StringTag{}), reflect.TypeOf(c18SelfEmbed{}),
 		reflect.TypeOf(c18Leaf{}), reflect.TypeOf(c18Tree{}), reflect.TypeOf(&c18Tree{}), reflect.TypeOf([]c18Tree{}), reflect.TypeOf([]*c18Tree{}), reflect.TypeOf(map[string]*c18Tree{}),
@@ -140,6 +164,7 @@ var c18Prims = []reflect.Type{
 	reflect.TypeOf(false), reflect.TypeOf(int(0)), reflect.TypeOf(int8(0)), reflect.TypeOf(int16(0)), reflect.TypeOf(int32(0)), reflect.TypeOf(int64(0)),
 	reflect.TypeOf(uint(0)), reflect.TypeOf(uint8(0)), reflect.TypeOf(uint16(0)), reflect.TypeOf(uint32(0)), reflect.TypeOf(uint64(0)),
 	reflect.TypeOf(float32(0)), reflect.TypeOf(float64(0)), reflect.TypeOf(""), reflect.TypeOf([]byte{}), reflect.TypeOf(time.Time{}),
+	reflect.TypeOf(c18Level(0)), reflect.TypeOf(c18Hash{}), reflect.TypeOf(c18Name("")), reflect.TypeOf(c18Count(0)), reflect.TypeOf(c18Ratio(0)), reflect.TypeOf(c18Flag(false)),
 }
 
 func c18RandomType(r *rand.Rand, depth int) reflect.Type {
